@@ -32,6 +32,45 @@ import threading
 _LOCK = threading.Lock()
 
 
+class TlcSlot:
+    """System-wide limit on the number of TLC JVMs running at once (several checks, their parallel model-checking
+    and validation runs and other users of this machine add up: 76 JVMs at once got OOM-killed).  A slot is a lock
+    file under /var/tmp; waiting for one is not counted against any timeout."""
+    N = int(os.environ.get("VERIF_TLC_SLOTS", "20"))
+    DIR = os.environ.get("VERIF_TLC_SLOT_DIR", "/var/tmp/verif-tlc-slots")
+
+    def __enter__(self):
+        import fcntl
+        self.f = None
+        try:
+            os.makedirs(self.DIR, exist_ok=True)
+        except OSError:
+            return self
+        t0 = time.time()
+        while True:
+            for k in range(self.N):
+                try:
+                    f = open(os.path.join(self.DIR, "slot-%d" % k), "w")
+                    fcntl.flock(f, fcntl.LOCK_EX | fcntl.LOCK_NB)
+                    self.f = f
+                    return self
+                except OSError:
+                    try:
+                        f.close()
+                    except Exception:
+                        pass
+            if time.time() - t0 > 3600:      # never block for ever: go ahead without a slot
+                return self
+            time.sleep(0.5)
+
+    def __exit__(self, *a):
+        if self.f is not None:
+            try:
+                self.f.close()
+            except Exception:
+                pass
+
+
 def log(*a):
     print(*a, flush=True)
 
@@ -189,9 +228,10 @@ class Run:
         e.pop("JAVA_TOOL_OPTIONS", None)
         if env:
             e.update(env)
-        t = time.time()
         try:
-            p = subprocess.run(cmd, cwd=cwd, env=e, stdout=subprocess.PIPE, stderr=subprocess.STDOUT, text=True, timeout=timeout, errors="replace")
+            with TlcSlot():
+                t = time.time()
+                p = subprocess.run(cmd, cwd=cwd, env=e, stdout=subprocess.PIPE, stderr=subprocess.STDOUT, text=True, timeout=timeout, errors="replace")
         except subprocess.TimeoutExpired:
             subprocess.run(["pkill", "-f", md], check=False)
             raise MachineryError("TLC timed out after %ds on %s" % (timeout, module))
